@@ -1,6 +1,9 @@
 package props
 
 import (
+	"math/big"
+
+	sdkmath "cosmossdk.io/math"
 	"encoding/json"
 	"os"
 	"sync"
@@ -61,4 +64,30 @@ func decode[T any](raw json.RawMessage) (T, error) {
 func orbiterAddressed(receiver string) bool {
 	a, err := sdk.AccAddressFromBech32(receiver)
 	return err == nil && a.Equals(world.OrbiterAddr)
+}
+
+var (
+	labOnce sync.Once
+	labW    *world.Lab
+	labErr  error
+)
+
+// lab returns the process-wide LAB world built on top of the PROD world's application.
+func lab(t testing.TB) *world.Lab {
+	w := prod(t)
+	labOnce.Do(func() { labW, labErr = world.NewLab(w) })
+	if labErr != nil {
+		t.Fatalf("harness: building the LAB world failed: %v", labErr)
+	}
+	return labW
+}
+
+func sdkInt(b *big.Int) sdkmath.Int { return sdkmath.NewIntFromBigInt(b) }
+
+func sdkAddr(s string) (string, error) {
+	a, err := sdk.AccAddressFromBech32(s)
+	if err != nil {
+		return "", err
+	}
+	return a.String(), nil
 }
